@@ -1,6 +1,7 @@
 package sym
 
 import (
+	"os"
 	"bytes"
 	"fmt"
 	"go/token"
@@ -44,6 +45,8 @@ func lookupIntrinsic(fn *ssa.Function) intrinsicFn {
 		f = nativeWrapper(name, nf)
 	} else if ext, ok := externals[name]; ok && fn.Parent() == nil {
 		f = intrinsicFn(ext)
+	} else if zeroResultStubs[name] {
+		f = func(fr *frame, args []value) value { return zeroResults(fn) }
 	}
 	if f != nil {
 		intrinsicCache.Store(fn, f)
@@ -1062,6 +1065,20 @@ func init() {
 		return nil
 	}
 	fatal := func(fr *frame, args []value) value {
+		if os.Getenv("SYMGO_DEBUG_FATAL") != "" {
+			fmt.Fprintf(os.Stderr, "FATAL args: %#v\n", args)
+			if l, ok := args[0].([]value); ok {
+				for _, a := range l {
+					if x, ok := a.(iface); ok {
+						fmt.Fprintf(os.Stderr, "  type %v", x.t)
+						if p, ok := x.v.(*value); ok && p != nil {
+							fmt.Fprintf(os.Stderr, "  val %#v", *p)
+						}
+						fmt.Fprintln(os.Stderr)
+					}
+				}
+			}
+		}
 		panic(targetPanic{iface{t: types.Typ[types.String], v: "verif: process exit (log.Fatal/os.Exit)"}})
 	}
 	for _, n := range []string{"log.Fatal", "log.Fatalf", "log.Fatalln", "os.Exit", "log.Panicf", "log.Panic"} {
@@ -1144,9 +1161,6 @@ func init() {
 	}
 	intrinsics["net.Dial"] = func(fr *frame, args []value) value {
 		return tuple{iface{}, fr.i.newError(fr, "dial: network unreachable (stub)")}
-	}
-	intrinsics["net.ResolveTCPAddr"] = func(fr *frame, args []value) value {
-		return tuple{(*value)(nil), fr.i.newError(fr, "resolve: stub")}
 	}
 	intrinsics["math.IsNaN"] = func(fr *frame, args []value) value {
 		switch x := args[0].(type) {
